@@ -1172,6 +1172,25 @@ impl Check for C20 {
                     problems.push((format!("id-changed:{}", what), format!("{}: the type id changed", what)));
                 }
             }
+            // a built-in generic is a type of its own (it has an id and a record): the same element
+            // under another generic must not share that id - checked with the generic itself as
+            // the root, where no enclosing type's lexical reference can hide a collision
+            for i in g.reachable(root) {
+                let swapped = match &g.nodes[i] {
+                    Node::Sender(c) => Some((Node::Receiver(*c), "sender<T> vs receiver<T>")),
+                    Node::Receiver(c) => Some((Node::Sender(*c), "receiver<T> vs sender<T>")),
+                    Node::Opt(c) => Some((Node::VecT(*c), "option<T> vs vec<T>")),
+                    Node::VecT(c) => Some((Node::Opt(*c), "vec<T> vs option<T>")),
+                    _ => None,
+                };
+                let Some((n2, what)) = swapped else { continue };
+                let mut h = g.clone();
+                h.nodes[i] = n2;
+                obs.push((format!("generic-as-root[{}]", what), 1));
+                if type_id(&g, i) == type_id(&h, i) {
+                    problems.push((format!("id-unchanged:generic-as-root:{}", what.split(' ').next().unwrap_or("")), format!("{}: the two built-in generics over the same element type have the same type id", what)));
+                }
+            }
             let mut done = 0;
             for _ in 0..40 {
                 if done >= 12 {
